@@ -52,15 +52,14 @@ def side_table(f):
 
 def pq_table(f):
     """{(margin sign, side): set of signs of the returned priority} for a positive incoming priority"""
-    dl = f.arg_by_name('distance')
-    ml = f.arg_by_name('margin')
-    sl = f.arg_by_name('side')
-    if dl is None or ml is None or sl is None:
+    # positional: pq_distance(distance: f32, margin: f32, side: Side)
+    if f.arg_count != 3 or f.local_ty(1) != 'f32' or f.local_ty(2) != 'f32' or 'Side' not in f.local_ty(3):
         return None
+    dn, mn, sn = (f.local_name(i) or 'arg%d' % i for i in (1, 2, 3))
     out = {}
     for ms in ('neg', 'pos'):
         for sv, sname in ((0, 'Left'), (1, 'Right')):
-            env = {'distance': 'pos', 'margin': ms, 'disc:side': sv}
+            env = {dn: 'pos', mn: ms, 'disc:%s' % sn: sv}
             outs, forks = absint.explore(f, env)
             out[(ms, sname)] = {absint.sign_of(t, env) for k, t in outs}
     return out
@@ -86,7 +85,10 @@ def r_sign_agreement(ctx, rule='R-SIGN'):
         if c is not None:
             # margin of (item vector, normal) through margin_no_header (the reader uses margin_no_header(normal, query))
             a = [show(c.arg_term(i)) for i in range(len(c.args))]
-            good_m = c.callee.endswith('Distance::margin_no_header') and any('normal' in x for x in a) and any('node' in x and 'vector' in x for x in a)
+            ats = [strip(c.arg_term(i)) for i in range(len(c.args))]
+            has_vec = any(any(x[0] == 'field' and x[2] == 'vector' and root(x[1])[0] == 'arg' for x in walk(t)) for t in ats)
+            has_plane = any(root(t)[0] == 'arg' and 'UnalignedVector' in f.local_ty(root(t)[1]) and not any(x[0] == 'field' and x[2] == 'vector' for x in walk(t)) for t in ats)
+            good_m = c.callee.endswith('Distance::margin_no_header') and has_vec and has_plane
             ctx.check(good_m, rule, f.path + '/margin', c.loc(), 'margin = D::margin_no_header(item vector, plane normal)',
                       '`%s` computes its margin from %s: the writer and the reader must use the same margin_no_header(vector, normal)' % (f.path, a))
     for f in bodies['pq_distance']:
